@@ -5,6 +5,7 @@ From SQ Require Import lib.Base gen.Gen_C16.
 From SQ Require model.SlidingWindow proofs.SlidingWindowProofs.
 From SQ Require model.IntervalSet proofs.IntervalSetProofs model.AckRanges model.PnMap.
 From SQ Require proofs.IntervalSetRemove proofs.IntervalSetSearch proofs.IntervalSetOps proofs.IntervalSetRun proofs.AckRangesProofs.
+From SQ Require proofs.IntervalSetInter proofs.IntervalSetRun2 proofs.AckRangesRun proofs.PnMapProofs.
 Local Open Scope N_scope.
 
 (* ------------------------------------------------------------------------------------------ *)
@@ -205,6 +206,61 @@ Theorem C16_ack_drops_only_lowest_partial : forall s a b, AckRangesProofs.AInv s
   forall y, IntervalSetProofs.mem y (IntervalSet.intervals (fst (AckRanges.ref_insert_range s a b))) -> hi < y.
 Proof. exact AckRangesProofs.ref_insert_range_drops_lowest. Qed.
 
+(* ---- round 3 ---- *)
+
+(* the reference intersection keeps ISWf and means set intersection *)
+Theorem C16_ref_inter_wf : forall emax l1 l2, IntervalSetProofs.iswf emax l1 -> IntervalSetProofs.iswf emax l2 ->
+  IntervalSetProofs.iswf emax (IntervalSet.ref_inter l1 l2).
+Proof. exact IntervalSetInter.ref_inter_wf. Qed.
+
+Theorem C16_ref_inter_is_intersection : forall l1 l2 x,
+  IntervalSetProofs.mem x (IntervalSet.ref_inter l1 l2) <-> IntervalSetProofs.mem x l1 /\ IntervalSetProofs.mem x l2.
+Proof. exact IntervalSetInter.ref_inter_mem. Qed.
+
+(* iset_refines / judge_run without the intersection premise: the only side conditions left are that the
+   operands are u64 values and that the two sets hold fewer than usize::MAX intervals *)
+Theorem C16_iset_refines_full : forall sa sb op a b, IntervalSetRun.Inv sa sb ->
+  IntervalSetRun2.step_ok2 sa sb a b = true ->
+  IntervalSet.step (IntervalSet.model_ops IntervalSetRun.emax64) sa sb op a b = IntervalSet.step IntervalSet.ref_ops sa sb op a b /\
+  IntervalSetRun.Inv (fst (fst (IntervalSet.step IntervalSet.ref_ops sa sb op a b)))
+                     (snd (fst (IntervalSet.step IntervalSet.ref_ops sa sb op a b))).
+Proof. exact IntervalSetRun2.step_refines2. Qed.
+
+Theorem C16_iset_judge_model_full : forall c, IntervalSetRun2.iset_case_ok2 c = true ->
+  IntervalSet.judge c (IntervalSet.run c) = true.
+Proof. exact IntervalSetRun2.iset_judge_run2. Qed.
+
+(* ack::Ranges, whole op alphabet of the component (range insert, single insert, contains, remove through
+   DerefMut, pop_min), every history: outputs of the model = outputs of the capacity-bounded reference set *)
+Theorem C16_ack_run_is_spec : forall c, AckRangesRun.ack_case_ok c = true -> AckRanges.run c = AckRanges.spec_run c.
+Proof. exact AckRangesRun.ack_run_is_spec. Qed.
+
+Theorem C16_ack_judge_model : forall c, AckRangesRun.ack_case_ok c = true ->
+  AckRanges.judge c (AckRanges.run c) = true.
+Proof. exact AckRangesRun.ack_judge_run. Qed.
+
+Example C16_round3_premises_met :
+  IntervalSetRun2.iset_case_ok2 [0;5;9; 0;20;29; 6;0;100; 6;3;8; 7;2;0; 7;0;0; 1;6;7]%Z = true /\
+  AckRangesRun.ack_case_ok [2; 1;10;0; 1;12;0; 1;14;0; 1;5;0; 3;12;12; 4;0;0]%Z = true.
+Proof. split; vm_compute; reflexivity. Qed.
+
+(* ------------------------------------------------------------------------------------------ *)
+(* packet number Map                                                                          *)
+(* ------------------------------------------------------------------------------------------ *)
+
+(* remove_range (RemoveIter drained, as Drop does) yields strictly ascending packet numbers, all inside the
+   requested range [a, b]; iter() yields strictly ascending packet numbers from `start`.
+   PARTIAL with respect to DESIGN pnmap_refines: the refinement of the ring buffer (insert /
+   insert_or_update / remove / get, resize re-indexing, set_start / set_end) to a finite map and judge_run
+   for the `pnmap` component are NOT proved; that part rests on the differential check and the judgement
+   against the reference association list. *)
+Theorem C16_pnmap_remove_range_ascending_partial : forall m a b, a <= b ->
+  PnMapProofs.asc a (b + 1) (snd (PnMap.remove_range m a b)).
+Proof. exact PnMapProofs.remove_range_ascending. Qed.
+
+Theorem C16_pnmap_iter_ascending_partial : forall m, exists hi, PnMapProofs.asc (PnMap.start m) hi (PnMap.iter m).
+Proof. exact PnMapProofs.iter_ascending. Qed.
+
 (* non-vacuity: model and reference agree on a run with merges, a split, the limit and both set operations *)
 Example C16_iset_example :
   IntervalSet.run [0;5;9; 0;20;29; 0;10;19; 1;12;13; 5;2;0; 1;25;26; 6;0;100; 7;1;0]%Z =
@@ -238,3 +294,11 @@ Print Assumptions C16_iset_judge_model.
 Print Assumptions C16_ack_insert_range_refines.
 Print Assumptions C16_ack_insert_range_inv.
 Print Assumptions C16_ack_drops_only_lowest_partial.
+Print Assumptions C16_ref_inter_wf.
+Print Assumptions C16_ref_inter_is_intersection.
+Print Assumptions C16_iset_refines_full.
+Print Assumptions C16_iset_judge_model_full.
+Print Assumptions C16_ack_run_is_spec.
+Print Assumptions C16_ack_judge_model.
+Print Assumptions C16_pnmap_remove_range_ascending_partial.
+Print Assumptions C16_pnmap_iter_ascending_partial.
